@@ -155,6 +155,17 @@ class _Flags:
     def writeable(self, v):
         self._a._writeable = bool(v)
 
+    @property
+    def c_contiguous(self):
+        return self._a._c_contiguous()
+
+    @property
+    def f_contiguous(self):
+        return self._a._f_contiguous()
+
+    def __getitem__(self, k):
+        return {'C_CONTIGUOUS': self.c_contiguous, 'F_CONTIGUOUS': self.f_contiguous, 'WRITEABLE': self.writeable}[k]
+
 
 class ndarray:
     __array_priority__ = 100
@@ -236,13 +247,66 @@ class ndarray:
         k = _type_kind(t)
         return ndarray._from_flat(self._flat_values(), self.shape, k)
 
-    def flatten(self):
-        return ndarray(self._flat_values(), list(range(self.size)), (self.size,), self.kind)
+    # ---- memory layout (offsets into the shared store): contiguity decides view-vs-copy and the
+    #      element order of order='A' / 'K' / 'F'
+    def _c_contiguous(self):
+        idx = self._idx
+        return builtins.all(idx[i + 1] == idx[i] + 1 for i in range(len(idx) - 1))
 
-    def ravel(self):
-        return ndarray(self._store, list(self._idx), (self.size,), self.kind, self._writeable, self)
+    def _f_order_idx(self):
+        """offsets in Fortran (column-major) index order."""
+        if self.ndim < 2:
+            return list(self._idx)
+        st = _strides(self.shape)
+        out = []
+        for combo in itertools.product(*[range(n) for n in reversed(self.shape)]):
+            flat = 0
+            for c, stv in zip(reversed(combo), st):
+                flat += c * stv
+            out.append(self._idx[flat])
+        return out
 
-    def reshape(self, *shape):
+    def _f_contiguous(self):
+        idx = self._f_order_idx()
+        return builtins.all(idx[i + 1] == idx[i] + 1 for i in range(len(idx) - 1))
+
+    def _order_idx(self, order):
+        if order in ('C', None):
+            return list(self._idx)
+        if order == 'F':
+            return self._f_order_idx()
+        if order == 'A':
+            return self._f_order_idx() if (self._f_contiguous() and not self._c_contiguous()) else list(self._idx)
+        if order == 'K':
+            if self._c_contiguous():
+                return list(self._idx)
+            if self._f_contiguous():
+                return self._f_order_idx()
+            if len(set(self._idx)) == len(self._idx):
+                # numpy walks the axes from the smallest stride up; for the views bycycle-style code builds
+                # (slices with steps, flips, transposes) that is memory order of |strides|; be honest otherwise
+                srt = sorted(self._idx)
+                if self.ndim == 1:
+                    return list(self._idx)           # 1-D: index order (a flip stays flipped)
+                return srt
+            raise ModelGap("order='K' on an array with repeated elements")
+        raise ValueError("order must be one of 'C', 'F', 'A', or 'K' (got %r)" % (order,))
+
+    def flatten(self, order='C'):
+        st = self._store
+        return ndarray([st[i] for i in self._order_idx(order)], list(range(self.size)), (self.size,), self.kind)
+
+    def ravel(self, order='C'):
+        idx = self._order_idx(order)
+        viewable = (order in ('C', None) and self._c_contiguous()) or \
+                   (order == 'F' and self._f_contiguous()) or \
+                   (order in ('A', 'K') and (self._c_contiguous() or self._f_contiguous()))
+        if viewable:
+            return ndarray(self._store, idx, (self.size,), self.kind, self._writeable, self)
+        st = self._store
+        return ndarray([st[i] for i in idx], list(range(self.size)), (self.size,), self.kind)     # a copy
+
+    def reshape(self, *shape, order='C'):
         if len(shape) == 1 and isinstance(shape[0], (tuple, list)):
             shape = tuple(shape[0])
         shape = tuple(int(s) for s in shape)
@@ -251,7 +315,25 @@ class ndarray:
             shape = tuple(self.size // known if s == -1 else s for s in shape)
         if _prod(shape) != self.size:
             raise ValueError("cannot reshape array of size %d into shape %s" % (self.size, shape))
-        return ndarray(self._store, list(self._idx), shape, self.kind, self._writeable, self)
+        fortran = order == 'F' or (order == 'A' and self._f_contiguous() and not self._c_contiguous())
+        if order not in ('C', 'F', 'A', None):
+            raise ValueError("order must be one of 'C', 'F', 'A'")
+        if not fortran:
+            # reading in C index order; a view whenever possible (always for our offset lists)
+            return ndarray(self._store, list(self._idx), shape, self.kind, self._writeable, self)
+        # Fortran index order for both reading and placing
+        src = self._f_order_idx()
+        n = len(src)
+        dst = [None] * n
+        st_new = _strides(shape)
+        k = 0
+        for combo in itertools.product(*[range(m) for m in reversed(shape)]):
+            flat = 0
+            for c, stv in zip(reversed(combo), st_new):
+                flat += c * stv
+            dst[flat] = src[k]
+            k += 1
+        return ndarray(self._store, dst, shape, self.kind, self._writeable, self)
 
     def __iter__(self):
         if not self.shape:
@@ -631,6 +713,10 @@ class ndarray:
         return cumsum(self)
 
 
+def _arith_progression(idx):
+    return len(idx) < 2 or builtins.all(idx[i + 1] - idx[i] == idx[1] - idx[0] for i in range(len(idx) - 1))
+
+
 def _gap(msg):
     raise ModelGap(msg)
 
@@ -933,14 +1019,26 @@ def full(shape, v, dtype=None):
     return ndarray._from_flat([v] * _prod(shape), tuple(shape), k)
 
 
-def zeros_like(a, dtype=None):
+def zeros_like(a, dtype=None, shape=None):
     a = asarray(a)
-    return zeros(a.shape, dtype if dtype is not None else a.dtype)
+    return zeros(a.shape if shape is None else shape, dtype if dtype is not None else a.dtype)
 
 
-def ones_like(a, dtype=None):
+def ones_like(a, dtype=None, shape=None):
     a = asarray(a)
-    return ones(a.shape, dtype if dtype is not None else a.dtype)
+    return ones(a.shape if shape is None else shape, dtype if dtype is not None else a.dtype)
+
+
+def full_like(a, fill_value, dtype=None, shape=None):
+    """takes the dtype of ``a``: NaN into an integer array is numpy's INT_MIN cast (modelled as an error:
+    the value is garbage either way and must never be believed)."""
+    a = asarray(a)
+    k = _type_kind(dtype) if dtype is not None else a.kind
+    shp = a.shape if shape is None else ((int(shape),) if isinstance(shape, (int, SymInt)) else tuple(shape))
+    if k in ('i', 'b') and isinstance(fill_value, float) and (fill_value != fill_value or fill_value in (float('inf'), float('-inf'))):
+        v = i64(-9223372036854775808) if k == 'i' else True
+        return ndarray([v] * _prod(shp), list(range(_prod(shp))), shp, k)
+    return ndarray._from_flat([fill_value] * _prod(shp), shp, k)
 
 
 def arange(*args, dtype=None):
@@ -1396,7 +1494,7 @@ def round(x, decimals=0):  # noqa
     if symx._is_sym(x):
         if isinstance(x, SymInt):
             return x
-        raise ModelGap("round of symbolic real")
+        return symx.sym_round(x, decimals)
     if isinstance(x, int):
         return x
     return f64(builtins.round(float(x), decimals))
@@ -1452,12 +1550,40 @@ def _transpose(a, perm):
     return ndarray(a._store, offs, new_shape, a.kind, a._writeable, a)
 
 
-def reshape(a, shape):
-    return asarray(a).reshape(shape)
+def reshape(a, shape=None, order='C', newshape=None):
+    return asarray(a).reshape(shape if shape is not None else newshape, order=order)
 
 
-def ravel(a):
-    return asarray(a).ravel()
+def ravel(a, order='C'):
+    return asarray(a).ravel(order=order)
+
+
+def asfortranarray(a, dtype=None):
+    """same values, column-major memory layout."""
+    a = asarray(a, dtype=dtype) if dtype is not None else asarray(a)
+    if a.ndim < 2 or a._f_contiguous():
+        return a
+    src = a._f_order_idx()
+    store = [a._store[i] for i in src]             # memory image in Fortran order
+    pos = {}
+    k = 0
+    for combo in itertools.product(*[range(m) for m in reversed(a.shape)]):
+        pos[tuple(reversed(combo))] = k
+        k += 1
+    idx = [pos[c] for c in itertools.product(*[range(m) for m in a.shape])]
+    return ndarray(store, idx, a.shape, a.kind)
+
+
+def ascontiguousarray(a, dtype=None):
+    a = asarray(a, dtype=dtype) if dtype is not None else asarray(a)
+    return a if a._c_contiguous() else a.copy()
+
+
+def flip(a, axis=None):
+    a = asarray(a)
+    if a.ndim != 1:
+        raise ModelGap("flip ndim != 1")
+    return a[::-1]
 
 
 def squeeze(a):
